@@ -223,6 +223,21 @@ Record Built (o : opts) (keys : list key) (vals : option (list (list byte))) (T 
   bt_innerpfx : t_innerpfx T = o_inner o
 }.
 
+Lemma build_gen_unfold b o keys vals : keys <> [] ->
+  build_gen b o keys vals =
+  match check_order keys with
+  | Some i => Err (EOutOfOrder i)
+  | None =>
+      let ents := mk_ents 0 keys (to_keep o (length keys) vals) in
+      do (forest, lidx) <- build_levels (max_nibs keys + 3) o b 0 0 [{| s_ents := ents; s_from := 0 |}];
+      match forest with
+      | [r] => Ok {| t_root := Some r; t_innerpfx := o_inner o; t_leafpfx := o_leaf o;
+                     t_leaves := select_leaves vals lidx |}
+      | _ => Err (EPanic 3)
+      end
+  end.
+Proof. destruct keys; [congruence|reflexivity]. Qed.
+
 Lemma build_unfold o keys vals : keys <> [] ->
   build o keys vals =
   match check_order keys with
@@ -236,17 +251,17 @@ Lemma build_unfold o keys vals : keys <> [] ->
       | _ => Err (EPanic 3)
       end
   end.
-Proof. destruct keys; [congruence|reflexivity]. Qed.
+Proof. apply (build_gen_unfold true). Qed.
 
-Lemma build_ok o keys vals T :
-  build o keys vals = Ok T ->
+Lemma build_gen_ok b o keys vals T :
+  build_gen b o keys vals = Ok T ->
   (keys = [] /\ T = empty_trie) \/ exists r lidx, Built o keys vals T r lidx.
 Proof.
   destruct keys as [|k0 kr]; [intros H; inversion H; left; auto|].
-  rewrite build_unfold by discriminate.
+  rewrite build_gen_unfold by discriminate.
   destruct (check_order (k0 :: kr)) as [i|] eqn:Ec; [discriminate|].
   cbv zeta. unfold bind.
-  destruct (build_levels _ o true 0 0 _) as [[forest lidx]|] eqn:Eb; [|discriminate].
+  destruct (build_levels _ o b 0 0 _) as [[forest lidx]|] eqn:Eb; [|discriminate].
   destruct forest as [|r [|r2 rest]]; try discriminate.
   intros H. inversion H; subst T. clear H. right. exists r, lidx.
   apply build_levels_ok in Eb. destruct Eb as [HT HL].
@@ -255,3 +270,8 @@ Proof.
   - apply check_order_none. exact Ec.
   - discriminate.
 Qed.
+
+Lemma build_ok o keys vals T :
+  build o keys vals = Ok T ->
+  (keys = [] /\ T = empty_trie) \/ exists r lidx, Built o keys vals T r lidx.
+Proof. apply (build_gen_ok true). Qed.
